@@ -622,3 +622,80 @@ B('c15-benign-hash-one-update', 'C15', CG,
         digest.update(pack_code.encode())
         digest.update(unpack_code.encode())
         cookie = digest.hexdigest()''')
+
+# =========================================================================== C18
+S('c18-f7-reverted', 'C18', F,
+  '''                    if isinstance(byte_count, Any):
+                        # the length is a don't-care too: unknown size
+                        byte_count = None
+''', '', 'R12-maybe-any')
+S('c18-marker-escape-dropped', 'C18', F,
+  '''                    re.escape(self.until_marker)
+                    if isinstance(self.until_marker, bytes) else''',
+  '''                    self.until_marker
+                    if isinstance(self.until_marker, bytes) else''', 'R12-escape-discipline')
+S('c18-literal-escape-dropped', 'C18', FR,
+  '''        if is_literal:
+            regexp = re.escape(string)
+''',
+  '''        if is_literal:
+            regexp = string
+''', 'R12-literal-escape')
+S('c18-dotall-dropped', 'C18', PK, '''            b"(?s)" + fragments.assemble_regexp(), re.DEBUG if debug else 0''',
+  '''            fragments.assemble_regexp(), re.DEBUG if debug else 0''', 'R12-dotall-prefix')
+S('c18-fullmatch', 'C18', PM,
+  '''        pattern.search if scan_through_string_for_a_match else pattern.match,''',
+  '''        pattern.search if scan_through_string_for_a_match else pattern.fullmatch,''', 'R12-prefix-match')
+S('c18-int-width-wrong-attr', 'C18', F,
+  '''                (".{%i}" % self.byte_count).encode('ascii'), is_literal=False
+            )
+
+        return fragments
+
+
+@defer_operations(allowed_categories=['sequence'])''',
+  '''                (".{%i}" % len(self.struct_code or 'x')).encode('ascii'), is_literal=False
+            )
+
+        return fragments
+
+
+@defer_operations(allowed_categories=['sequence'])''', 'R12-width-agreement')
+S('c18-bits-class-bound-unescaped', 'C18', F,
+  '''                        lower_literal = re.escape(lower_char)''',
+  '''                        lower_literal = lower_char''', 'R12-escape-discipline')
+S('c18-bits-literal-as-pattern', 'C18', F,
+  '''                        fragments.append(char, is_literal=True)''',
+  '''                        fragments.append(char, is_literal=False)''', 'R12-escape-discipline')
+S('c18-bits-is-literal-guard-removed', 'C18', F,
+  '''                if is_literal:
+                    b = bin(getattr(pkt, name))[2:]''',
+  '''                if is_literal or bit_count == 8:
+                    b = bin(getattr(pkt, name))[2:]''', 'R12-maybe-any')
+S('c18-hole-nonstrict', 'C18', FR,
+  '''                result.append(("(?:.{%i})" % hole_length).encode('ascii'))''',
+  '''                result.append(("(?:.{0,%i})" % hole_length).encode('ascii'))''', 'R12-holes')
+S('c18-mixed-mask-wrong', 'C18', F,
+  '''                            byte.replace("1", "0").replace("x", "1"), 2''',
+  '''                            byte.replace("x", "1"), 2''', 'R12-bits-classes')
+S('c18-data-any-sized-star', 'C18', F,
+  '''                        (".{%i}" % byte_count).encode('ascii'),
+                        is_literal=False''',
+  '''                        (".{%i}" % (byte_count - 1)).encode('ascii'),
+                        is_literal=False''', 'R12-width-agreement')
+B('c18-benign-fstring-width', 'C18', F,
+  '''            fragments.append(
+                (".{%i}" % self.byte_count).encode('ascii'), is_literal=False
+            )
+
+        return fragments
+
+
+@defer_operations(allowed_categories=['sequence'])''',
+  '''            width = ".{%d}" % self.byte_count
+            fragments.append(width.encode('ascii'), is_literal=False)
+
+        return fragments
+
+
+@defer_operations(allowed_categories=['sequence'])''')
